@@ -1,6 +1,7 @@
 from __future__ import annotations
 
 import ast
+import contextlib
 import re
 from datetime import UTC, datetime
 from typing import TYPE_CHECKING, Any, cast
@@ -22,6 +23,7 @@ if TYPE_CHECKING:
 __all__ = [
     "BINARY",
     "DocstringRemover",
+    "FreeNameBinder",
     "IdentifierReplacer",
     "NARY",
     "RE_LAMBDA_ALGEBRAIC_MODULE_FUNC",
@@ -345,8 +347,72 @@ def _tree_to_sbml(
     return _handle_body(tree.body)
 
 
+class FreeNameBinder(ast.NodeTransformer):
+    """Bind the names a model function takes from its module.
+
+    Inside an SBML formula every identifier denotes a model component. A name that is
+    neither a parameter nor a local of the function is therefore replaced by the number
+    it stands for, or the export is refused.
+    """
+
+    def __init__(self, bound: set[str], namespace: dict[str, Any]) -> None:
+        self.bound = bound
+        self.namespace = namespace
+
+    def visit_Attribute(self, node: ast.Attribute) -> ast.Attribute:  # noqa: N802
+        # math.pi, np.exp, ...: handled by the converters
+        return node
+
+    def visit_Call(self, node: ast.Call) -> ast.Call:  # noqa: N802
+        func = node.func
+        if (
+            isinstance(func, ast.Name)
+            and (func.id in UNARY or func.id in BINARY or func.id in NARY)
+            and (obj := self.namespace.get(func.id)) is not None
+            and getattr(obj, "__module__", None) not in ("builtins", "math", "numpy")
+            and not isinstance(obj, np.ufunc)
+        ):
+            msg = f"Function {func.id} of the model's module cannot be exported to SBML"
+            raise NotImplementedError(msg)
+        if not isinstance(func, ast.Name):
+            node.func = self.visit(func)
+        node.args = [self.visit(arg) for arg in node.args]
+        for keyword in node.keywords:
+            keyword.value = self.visit(keyword.value)
+        return node
+
+    def visit_Name(self, node: ast.Name) -> ast.expr:  # noqa: N802
+        if not isinstance(node.ctx, ast.Load) or node.id in self.bound:
+            return node
+        value = self.namespace.get(node.id)
+        if isinstance(value, int | float) and not isinstance(value, bool):
+            return ast.copy_location(ast.Constant(value=value), node)
+        msg = f"Name {node.id} is not an argument of the function"
+        raise NotImplementedError(msg)
+
+
+def _function_namespace(fn: Callable) -> dict[str, Any]:
+    namespace = dict(getattr(fn, "__globals__", {}))
+    code = getattr(fn, "__code__", None)
+    closure = getattr(fn, "__closure__", None)
+    if code is not None and closure is not None:
+        for name, cell in zip(code.co_freevars, closure, strict=True):
+            with contextlib.suppress(ValueError):  # empty cell
+                namespace[name] = cell.cell_contents
+    return namespace
+
+
 def _sbmlify_fn(fn: Callable, user_args: list[str]) -> libsbml.ASTNode:
-    return _tree_to_sbml(get_fn_ast(fn), args=user_args)
+    tree = get_fn_ast(fn)
+    bound = {i.arg for i in tree.args.args} | {
+        node.id
+        for node in ast.walk(tree)
+        if isinstance(node, ast.Name) and isinstance(node.ctx, ast.Store)
+    }
+    binder = FreeNameBinder(bound, _function_namespace(fn))
+    # the body only: annotations and defaults are not part of the formula
+    tree.body = [binder.visit(stmt) for stmt in tree.body]
+    return _tree_to_sbml(tree, args=user_args)
 
 
 ##########################################################################
